@@ -127,7 +127,8 @@ Fixpoint mrun (s : mstate) (tr : list event) (pos : nat) : mstate + (nat * merro
               end
   end.
 
-Definition leaked (s : mstate) : list N := filter (fun p => tget (m_live s) p) (rev (m_ids s)).
+(* oldest first; rev_append because List.rev is quadratic and traces hold 10^5 blocks *)
+Definition leaked (s : mstate) : list N := filter (fun p => tget (m_live s) p) (rev_append (m_ids s) []).
 
 Definition monitor (tr : list event) : mverdict :=
   match mrun m_init tr 0 with
